@@ -252,6 +252,12 @@ pub fn spec_random(mode: u16, seed: u64, biased: bool) -> Spec {
         } else {
             ([pick(&mut r), pick(&mut r), pick(&mut r), pick(&mut r)], [pick(&mut r), pick(&mut r), pick(&mut r), pick(&mut r)])
         };
+        // relationships random data never produces: identical pixels, identical colour with other alpha
+        let s = match r.next() % 16 {
+            0 => b,
+            1 => [b[0], b[1], b[2], s[3]],
+            _ => s,
+        };
         back.push(pack(b[0], b[1], b[2], b[3]));
         src.push(pack(s[0], s[1], s[2], s[3]));
     }
